@@ -212,6 +212,7 @@ static void frag_probe_stats(unsigned off, unsigned len, unsigned block)
 static void* migrate(void* st, size_t keep)
 {
 	void* n = sk_alloc(keep);
+	sk_dg_u64(&SHAPE, 0x33);
 	memcpy(n, st, keep);
 	sk_bytes(&R, st, keep); /* the old context is scribbled ... */
 	sk_free(st);            /* ... and released (poisoned under ASan) */
@@ -225,6 +226,7 @@ static void cmp_out(const char* bundle, const char* what, const void* got,
 	const unsigned char* g = (const unsigned char*)got;
 	const unsigned char* w = (const unsigned char*)want;
 	sk_dg_add(&OUT->digest, got, n);
+	sk_dg_u64(&SHAPE, 0x44 | (uint64_t)n << 8 | (uint64_t)(unsigned char)what[0] << 32);
 	if (memcmp(got, want, n) == 0)
 		return;
 	for (i = 0; i < n && g[i] == w[i]; ++i)
@@ -240,6 +242,7 @@ static void cmp_out(const char* bundle, const char* what, const void* got,
 static void expect_bool(const char* bundle, const char* what, int got, int want, unsigned at)
 {
 	sk_dg_u64(&OUT->digest, (uint64_t)got);
+	sk_dg_u64(&SHAPE, 0x55 | (uint64_t)want << 8 | (uint64_t)(unsigned char)what[6] << 16);
 	if (!got != !want)
 	{
 		char cls[96];
@@ -1098,11 +1101,187 @@ static void run_totp(void)
 	sk_free(st);
 }
 
+
+/* OCRA: a sequence of generate/verify/get calls on one state, with relocation */
+static void run_ocra(void)
+{
+	static const char* SUITES[] = {
+		"OCRA-1:HOTP-HBELT-8:C-QN08-PHBELT-S064-T1M", "OCRA-1:HOTP-HBELT-6:QN08",
+		"OCRA-1:HOTP-HBELT-7:QA10-T30S", "OCRA-1:HOTP-HBELT-9:C-QH40-PSHA1",
+		"OCRA-1:HOTP-HBELT-4:C-QA64-S128" };
+	static const size_t QMAX[] = { 8, 8, 10, 40, 64 };
+	static const size_t DIG[] = { 8, 6, 7, 9, 4 };
+	static const int HASC[] = { 1, 0, 0, 1, 1 };
+	unsigned si = sk_below(&R, 5), n = 1 + sk_below(&R, 6), i;
+	size_t keep = botpOCRA_keep(), sl = strlen(SUITES[si]) + 1;
+	void* st;
+	char* suite = (char*)sk_alloc(sl);
+	octet ctr[8], p[64], sess[512], q[128], g[8];
+	char otp[16], want[16];
+	unsigned Ld;
+	tm_time_t t = (tm_time_t)sk_below(&R, 2000000000u);
+	common(16, 0, 1, &Ld);
+	klen = 1 + sk_below(&R, 64);
+	memcpy(suite, SUITES[si], sl);
+	sk_bytes(&R, ctr, 8), sk_bytes(&R, p, 64), sk_bytes(&R, sess, 512);
+	if (sk_chance(&R, 1, 3))
+		memset(ctr, 0xFF, 8), ctr[7] = (octet)(0xFF - sk_below(&R, 3));
+	OUT->nops = NEXT_IDX = n;
+	sk_text(OUT, "bundle botpOCRA suite=%s key=%u steps=%u", SUITES[si], (unsigned)klen, n);
+	st = sk_alloc(keep);
+	if (!botpOCRAStart(st, suite, key, klen))
+	{
+		sk_violate(OUT, "mismatch:botpOCRA:start", "botpOCRAStart rejects the valid suite %s", SUITES[si]);
+		return;
+	}
+	botpOCRAStepS(st, ctr, p, sess);
+	for (i = 0; i < n && !OUT->violated; ++i)
+	{
+		unsigned op = sk_below(&R, 4), k;
+		int mig = sk_chance(&R, 1, 3);
+		size_t ql = 4 + sk_below(&R, (uint32_t)(2 * QMAX[si] - 3));
+		err_t code;
+		for (k = 0; k < ql; ++k)
+			q[k] = (octet)('0' + sk_below(&R, 10));
+		t += sk_below(&R, 3);
+		if (!sk_keep(MASK, i))
+			continue;
+		if (mig)
+			st = migrate(st, keep), sk_count("fault.state_migrated", 1);
+		sk_heap_arm();
+		code = botpOCRARand(want, suite, key, klen, q, ql, ctr, p, sess, t);
+		sk_heap_disarm();
+		if (code != ERR_OK) { ref_fail("botpOCRA", code); break; }
+		switch (op)
+		{
+		case 0:
+			sk_text(OUT, "  %u StepR q=%u%s", i, (unsigned)ql, mig ? " (migrated)" : "");
+			memset(otp, 'x', sizeof(otp));
+			botpOCRAStepR(otp, q, ql, t, st);
+			cmp_out("botpOCRA", "otp", otp, want, DIG[si] + 1, i);
+			if (HASC[si]) botpCtrNext(ctr);
+			break;
+		case 1:
+			sk_text(OUT, "  %u StepV(correct) q=%u%s", i, (unsigned)ql, mig ? " (migrated)" : "");
+			expect_bool("botpOCRA", "StepV(correct)", botpOCRAStepV(want, q, ql, t, st), 1, i);
+			if (HASC[si]) botpCtrNext(ctr);
+			break;
+		case 2:
+			sk_text(OUT, "  %u StepV(wrong)%s", i, mig ? " (migrated)" : "");
+			want[DIG[si] - 1] = (char)('0' + (want[DIG[si] - 1] - '0' + 1) % 10);
+			expect_bool("botpOCRA", "StepV(wrong)", botpOCRAStepV(want, q, ql, t, st), 0, i);
+			break;
+		default:
+			if (!HASC[si])
+				break;
+			sk_text(OUT, "  %u StepG%s", i, mig ? " (migrated)" : "");
+			botpOCRAStepG(g, st);
+			cmp_out("botpOCRA", "counter", g, ctr, 8, i);
+			break;
+		}
+	}
+	sk_free(st);
+}
+
+/* WBL/KWP and FMT: one state serving several whole-buffer calls, relocated in between */
+static void run_wbl(void)
+{
+	unsigned n = 1 + sk_below(&R, 4), i, Ld;
+	size_t keep = beltWBL_keep();
+	void* st;
+	common(16, 0, 1, &Ld);
+	OUT->nops = NEXT_IDX = n;
+	sk_text(OUT, "bundle beltWBL/KWP key=%u calls=%u", (unsigned)klen, n);
+	st = sk_alloc(keep);
+	beltWBLStart(st, key, klen);
+	for (i = 0; i < n && !OUT->violated; ++i)
+	{
+		static const size_t ls[] = { 32, 33, 47, 48, 49, 63, 64, 65, 80, 100, 200 };
+		size_t len = ls[sk_below(&R, 11)];
+		int dec = (int)sk_below(&R, 2), mig = sk_chance(&R, 1, 3);
+		octet hdr[16];
+		err_t code;
+		sk_bytes(&R, msg, len), sk_bytes(&R, hdr, 16);
+		if (!sk_keep(MASK, i))
+			continue;
+		if (mig)
+			st = migrate(st, keep), sk_count("fault.state_migrated", 1);
+		sk_text(OUT, "  %u %s len=%u%s", i, dec ? "StepD" : "StepE", (unsigned)len, mig ? " (migrated)" : "");
+		/* reference through KWP: wrap = WBL-encrypt(key || header) */
+		memcpy(buf, msg, len - 16), memcpy(buf + len - 16, hdr, 16);
+		sk_heap_arm();
+		code = beltKWPWrap(ref, msg, len - 16, hdr, key, klen);
+		sk_heap_disarm();
+		if (code != ERR_OK) { ref_fail("beltWBL", code); break; }
+		if (!dec)
+		{
+			beltWBLStepE(buf, len, st);
+			cmp_out("beltWBL", "ciphertext", buf, ref, len, i);
+		}
+		else
+		{
+			memcpy(buf, ref, len);
+			if (sk_chance(&R, 1, 2))
+				beltWBLStepD(buf, len, st);
+			else
+			{
+				/* two-part decryption: the last 16 octets live elsewhere */
+				octet tail[16];
+				memcpy(tail, buf + len - 16, 16);
+				beltWBLStepD2(buf, tail, len, st);
+				memcpy(buf + len - 16, tail, 16);
+			}
+			cmp_out("beltWBL", "key", buf, msg, len - 16, i);
+			cmp_out("beltWBL", "header", buf + len - 16, hdr, 16, i);
+		}
+	}
+	sk_free(st);
+}
+
+static void run_fmt(void)
+{
+	static const u32 mods[] = { 2, 3, 10, 16, 58, 256, 257, 1000, 65536 };
+	static const size_t cnts[] = { 2, 3, 9, 10, 17, 21, 33, 39, 64, 100 };
+	u32 mod = mods[sk_below(&R, 9)];
+	size_t count = cnts[sk_below(&R, 10)], keep, j;
+	unsigned n = 1 + sk_below(&R, 4), i, Ld;
+	void* st;
+	static u16 src[128], dst[128], want[128];
+	common(16, 0, 1, &Ld);
+	keep = beltFMT_keep(mod, count);
+	OUT->nops = NEXT_IDX = n;
+	sk_text(OUT, "bundle beltFMT mod=%u count=%u key=%u calls=%u", (unsigned)mod, (unsigned)count, (unsigned)klen, n);
+	st = sk_alloc(keep);
+	beltFMTStart(st, mod, count, key, klen);
+	for (i = 0; i < n && !OUT->violated; ++i)
+	{
+		int dec = (int)sk_below(&R, 2), mig = sk_chance(&R, 1, 3), useiv = (int)sk_below(&R, 3);
+		octet fiv[16];
+		err_t code;
+		for (j = 0; j < count; ++j)
+			src[j] = (u16)(sk_below(&R, mod));
+		sk_bytes(&R, fiv, 16);
+		if (!sk_keep(MASK, i))
+			continue;
+		if (mig)
+			st = migrate(st, keep), sk_count("fault.state_migrated", 1);
+		sk_text(OUT, "  %u %s%s", i, dec ? "StepD" : "StepE", mig ? " (migrated)" : "");
+		memcpy(dst, src, 2 * count);
+		sk_heap_arm();
+		code = (dec ? beltFMTDecr : beltFMTEncr)(want, mod, src, count, key, klen, useiv ? fiv : 0);
+		sk_heap_disarm();
+		if (code != ERR_OK) { ref_fail("beltFMT", code); break; }
+		(dec ? beltFMTStepD : beltFMTStepE)(dst, useiv ? fiv : 0, st);
+		cmp_out("beltFMT", dec ? "plaintext" : "ciphertext", dst, want, 2 * count, i);
+	}
+	sk_free(st);
+}
+
 /* ------------------------------------------------------------ dispatcher */
 enum { B_ECB, B_CBC, B_CFB, B_CTR, B_BDE, B_SDE, B_MAC, B_HASH, B_HMAC, B_DWP,
-	B_CHE, B_KRP, B_BASHHASH, B_BASHPRG, B_BRNGCTR, B_BRNGHMAC, B_HOTP, B_TOTP, B_N };
+	B_CHE, B_KRP, B_BASHHASH, B_BASHPRG, B_BRNGCTR, B_BRNGHMAC, B_HOTP, B_TOTP, B_OCRA, B_WBL, B_FMT, B_N };
 static const char* BN[] = { "ecb","cbc","cfb","ctr","bde","sde","mac","hash","hmac",
-	"dwp","che","krp","bashhash","bashprg","brngctr","brnghmac","hotp","totp" };
+	"dwp","che","krp","bashhash","bashprg","brngctr","brnghmac","hotp","totp","ocra","wbl","fmt" };
 static int only = -1;
 
 static void init(const sk_opts* o)
@@ -1139,6 +1318,9 @@ static void run(uint64_t seed, const sk_mask* mask, sk_result* out)
 	case B_BRNGCTR: run_brngctr(); break;
 	case B_BRNGHMAC: run_brnghmac(); break;
 	case B_HOTP: run_hotp(); break;
+	case B_OCRA: run_ocra(); break;
+	case B_WBL: run_wbl(); break;
+	case B_FMT: run_fmt(); break;
 	default: run_totp(); break;
 	}
 	out->nops = NEXT_IDX;
